@@ -53,26 +53,33 @@ func init() {
 		"(*bufio.Reader).ReadRune":    extReadRune,
 		"(*bufio.Reader).UnreadRune":  extUnreadRune,
 		"context.WithCancel":          extCtxWithCancel,
-		"(*sync.WaitGroup).Add":       extNop,
-		"(*sync.WaitGroup).Done":      extNop,
-		"(*sync.WaitGroup).Wait":      extNop,
-		"(*sync.RWMutex).Lock":        extNop,
-		"(*sync.RWMutex).Unlock":      extNop,
-		"(*sync.RWMutex).RLock":       extNop,
-		"(*sync.RWMutex).RUnlock":     extNop,
-		"(*sync.Once).Do":             extOnceDo,
-		"sync/atomic.AddInt32":        extAtomicAdd64,
-		"sync/atomic.AddInt64":        extAtomicAdd64,
-		"sync/atomic.AddUint32":       extAtomicAdd64,
-		"sync/atomic.LoadInt32":       extAtomicLoad64,
-		"sync/atomic.LoadInt64":       extAtomicLoad64,
-		"sync/atomic.LoadUint32":      extAtomicLoad64,
-		"sync/atomic.StoreInt32":      extAtomicStore,
-		"sync/atomic.StoreInt64":      extAtomicStore,
-		"sync/atomic.StoreUint32":     extAtomicStore,
-		"sync/atomic.StoreUint64":     extAtomicStore,
-		"(*sync.Mutex).Lock":          extNop,
-		"(*sync.Mutex).Unlock":        extNop,
+		"(*grits/process.RuntimeEnvironment).HeartbeatReceiver": extHeartbeatReceiver,
+		"(*sync.Once).Do":           extOnceDo,
+		"(*sync.WaitGroup).Add":     extWGAdd,
+		"(*sync.WaitGroup).Done":    extWGDone,
+		"(*sync.WaitGroup).Wait":    extWGWait,
+		"(*sync.RWMutex).Lock":      extMutexLock,
+		"(*sync.RWMutex).Unlock":    extMutexUnlock,
+		"(*sync.RWMutex).RLock":     extMutexRLock,
+		"(*sync.RWMutex).RUnlock":   extMutexRUnlock,
+		"(*sync.Mutex).Lock":        extMutexLock,
+		"(*sync.Mutex).Unlock":      extMutexUnlock,
+		"(*sync.Map).Load":          extSyncMapLoad,
+		"(*sync.Map).Store":         extSyncMapStore,
+		"(*sync.Map).LoadOrStore":   extSyncMapLoadOrStore,
+		"(*sync.Map).Delete":        extSyncMapDelete,
+		"(*sync.Map).LoadAndDelete": extSyncMapLoadAndDelete,
+		"(*sync.Map).Range":         extSyncMapRange,
+		"sync/atomic.AddInt32":      extAtomicAdd64,
+		"sync/atomic.AddInt64":      extAtomicAdd64,
+		"sync/atomic.AddUint32":     extAtomicAdd64,
+		"sync/atomic.LoadInt32":     extAtomicLoad64,
+		"sync/atomic.LoadInt64":     extAtomicLoad64,
+		"sync/atomic.LoadUint32":    extAtomicLoad64,
+		"sync/atomic.StoreInt32":    extAtomicStore,
+		"sync/atomic.StoreInt64":    extAtomicStore,
+		"sync/atomic.StoreUint32":   extAtomicStore,
+		"sync/atomic.StoreUint64":   extAtomicStore,
 	}
 }
 
@@ -444,6 +451,9 @@ func extAtomicLoad64(m *Machine, caller *frame, args []Value) Value {
 }
 
 func (m *Machine) logAccess(p Ptr, write, atomic bool, fr *frame) {
+	if atomic {
+		m.vcAtomic(p)
+	}
 	if m.path.watch == nil || !m.path.watch[p] {
 		return
 	}
@@ -563,7 +573,48 @@ func extCtxBackground(m *Machine, caller *frame, args []Value) Value {
 var ctxMarker = types.NewNamed(types.NewTypeName(token.NoPos, nil, "modelCtx", nil), types.NewStruct(nil, nil), nil)
 
 func extCtxWithCancel(m *Machine, caller *frame, args []Value) Value {
-	m.unsupported("context.WithCancel")
+	sp := m.P.Pkgs["grits/zzvn"]
+	if sp == nil || sp.Func("ModelWithCancel") == nil {
+		m.unsupported("context.WithCancel (no model)")
+	}
+	return m.callSSAPlain(caller, sp.Func("ModelWithCancel"), args)
+}
+
+// HeartbeatReceiver(timeout, cancel): the timer contract. The real function cancels the run
+// after `timeout` without a heartbeat; the model waits for exact quiescence (no goroutine can
+// make a step) and then calls cancel. Time itself is not modelled.
+func extHeartbeatReceiver(m *Machine, caller *frame, args []Value) Value {
+	// the heartbeat channel of this runtime environment becomes a sink: the model of the
+	// receiver consumes every heartbeat at once
+	marked := false
+	if p, ok := args[0].(Ptr); ok && p != nil {
+		if st, ok := (*p).(Struct); ok {
+			if sp := m.P.Pkgs["grits/process"]; sp != nil {
+				if tn, ok := sp.Pkg.Scope().Lookup("RuntimeEnvironment").(*types.TypeName); ok {
+					if stT, ok := tn.Type().Underlying().(*types.Struct); ok {
+						for i := 0; i < stT.NumFields() && i < len(st); i++ {
+							if _, isChan := stT.Field(i).Type().Underlying().(*types.Chan); isChan && strings.Contains(strings.ToLower(stT.Field(i).Name()), "heartbeat") {
+								if ch, ok := st[i].(*Chan); ok && ch != nil {
+									ch.Sink = true
+									ch.Buf = nil
+									marked = true
+								}
+							}
+						}
+					}
+				}
+			}
+		}
+	}
+	if !marked {
+		m.unsupported("HeartbeatReceiver: no heartbeat channel found in the runtime environment")
+	}
+	if m.schedOn() {
+		m.schedQuiesce(caller)
+	} else {
+		m.drain()
+	}
+	m.call(caller, token.NoPos, args[2], nil)
 	return nil
 }
 
